@@ -1,6 +1,7 @@
 """C14 — templates are built from descriptor lists exactly as FM-94 prescribes
 (pybufrkit/tables.py, descriptors.py vs coq/theories/Template.v)."""
 import glob
+import logging
 import hashlib
 import json
 import os
@@ -11,6 +12,7 @@ from concurrent.futures import ThreadPoolExecutor
 import lib
 
 LEVEL = 'proof'
+logging.disable(logging.WARNING)
 
 
 # ---------------------------------------------------------------------------
@@ -682,6 +684,19 @@ def run(ctx):
         raise RuntimeError('no bundled tables found under ' + tables_root())
     from pybufrkit.tables import TableGroupCacheManager
     TableGroupCacheManager.invalidate()
+
+    # ---- data tie: the Coq literal of the version-33 tables is the current file ----
+    import importlib.util
+    spec = importlib.util.spec_from_file_location('gen_template_data', os.path.join(lib.VERIF, 'harness', 'gen_template_data.py'))
+    gtd = importlib.util.module_from_spec(spec)
+    spec.loader.exec_module(gtd)
+    lit = open(os.path.join(lib.COQ, 'theories', 'TemplateData.v')).read()
+    ctx.count('TemplateData.v', nontrivial=False)
+    if gtd.render(lib.REPO) != lit:
+        ctx.violation({'kind': 'table-data-literal', 'no_failing_input': True,
+                       'broken': 'coq/theories/TemplateData.v is not the current pybufrkit/tables/0/0_0/33 (theorems '
+                                 'C14_expand_flat_v33, C14_v33_total speak about the literal)'},
+                      'bundled version-33 tables differ from the Coq literal')
 
     # ---- corpus first ------------------------------------------------------------
     corpus_dir = os.path.join(lib.VERIF, 'corpus', 'C14')
